@@ -32,6 +32,7 @@ sets = [
     ("C21", lambda: prolog.replay_atom_identity([])),
     ("C21growth", lambda: prolog.replay_atom_table_growth([])),
     ("C06order", lambda: prolog.replay_clause_order([])),
+    ("C06look", lambda: prolog.replay_lookahead([])),
     ("C55", lambda: prolog.replay_hex_escapes([])),
     ("C55canon", lambda: prolog.replay_canonical([])),
     ("numcmp", lambda: prolog.replay_number_comparisons([], "C04")),
